@@ -69,6 +69,7 @@ func c16Clobber(r *vf.Run) {
 			_ = os.WriteFile(p+".target", validBytes, 0o644)
 			_ = os.Symlink(p+".target", p)
 		}},
+		{"dangling-symlink", func(p string) { _ = os.Symlink(filepath.Join(filepath.Dir(p), "nowhere", filepath.Base(p)+".gone"), p) }},
 	}
 	// malformed inputs: the command fails for a reason of its own before or after it has looked at the output path;
 	// whatever it cleans up then, the file that was there before is not its file
@@ -173,8 +174,13 @@ func c16Clobber(r *vf.Run) {
 					if after.MTime != before.MTime {
 						r.Count("mtime_changed_without_content_change", 1)
 					}
-					if lst, err := os.Lstat(out); p.kind == "symlink-to-valid-index" && (err != nil || lst.Mode()&os.ModeSymlink == 0) {
+					if lst, err := os.Lstat(out); strings.Contains(p.kind, "symlink") && (err != nil || lst.Mode()&os.ModeSymlink == 0) {
 						r.Violation(cid, "existing-symlink-replaced", w)
+					}
+					if p.kind == "dangling-symlink" {
+						if _, err := os.Stat(filepath.Join(filepath.Dir(out), "nowhere")); err == nil {
+							r.Violation(cid, "written-through-a-dangling-symlink", w)
+						}
 					}
 					if p.kind == "hardlink-to-valid-index" {
 						if t := mon.StatFile(out + ".target"); t.SHA != before.SHA {
@@ -235,7 +241,20 @@ func c16ReadOnly(r *vf.Run) {
 			return
 		}
 		qs := c03Queries(rng, ds, 60)
-		before := mon.StatFile(path)
+		// the file is old, not group/world readable now and then, and (every other dataset) reached through a symbolic link
+		// that is younger than its target
+		real := path
+		_ = os.Chtimes(real, time.Date(2021, 3, 4, 5, 6, 7, 0, time.UTC), time.Date(2021, 3, 4, 5, 6, 7, 123456789, time.UTC))
+		_ = os.Chmod(real, []os.FileMode{0o644, 0o600, 0o444, 0o640}[len(id)%2+2*(int(rng.Int63())%2)])
+		if rng.Intn(2) == 0 {
+			link := filepath.Join(dir, "current.updog")
+			if os.Symlink("ix.updog", link) == nil {
+				path = link
+				r.Count("read_histories_through_a_symbolic_link", 1)
+			}
+		}
+		before := mon.StatFile(real)
+		defer func() { _ = os.Chmod(real, 0o644) }()
 		for _, o := range c16OptionSets {
 			cid := id + "/" + o.name
 			if !r.Want(cid) {
@@ -257,7 +276,7 @@ func c16ReadOnly(r *vf.Run) {
 				idx.Close()
 				idx.Close()
 			}
-			after := mon.StatFile(path)
+			after := mon.StatFile(real)
 			r.Eval(1)
 			r.Cover("read_option_sets", o.name)
 			r.Count("read_histories", 1)
@@ -281,7 +300,7 @@ func c16ReadOnly(r *vf.Run) {
 				}
 			}
 			db.Close()
-			if after := mon.StatFile(path); !after.SameContent(before) || after.MTime != before.MTime {
+			if after := mon.StatFile(real); !after.SameContent(before) || after.MTime != before.MTime || after.Mode != before.Mode {
 				r.Violation(id+"/sql-driver", "index-file-changed-by-reading", map[string]any{"before": before.String(), "after": after.String()})
 			}
 		}
